@@ -91,6 +91,22 @@ class Scenario:
         self.gates.append(g)
         return g
 
+    def keep_delivered(self, name, x):
+        """what a consumer was handed stays what it was: a batch (list / dict) the node goes on using and changing
+        after the hand-off shows up as a difference between the object and its frozen copy at the end"""
+        if isinstance(x, (list, dict, set)):
+            if not hasattr(self, "_kept"):
+                self._kept = []
+            self._kept.append((name, x, _freeze(x)))
+
+    def alias_violations(self):
+        out = []
+        for name, obj, frozen in getattr(self, "_kept", ()):
+            if _freeze(obj) != frozen:
+                out.append(Violation("delivered-object-changed-later", self.site(), "", dict(consumer=name, delivered=frozen, now=_freeze(obj))))
+                break
+        return out
+
     def pending_gates(self):
         return [g for g in self.gates if g.state == "pending"]
 
@@ -109,6 +125,7 @@ class Scenario:
 
         def begin(x):
             scen.log.append(("in", name, scen.loop.time(), _freeze(x)))
+            scen.keep_delivered(name, x)
             return scen.gate("%s:%r" % (name, _freeze(x)))
 
         def end(x):
@@ -116,6 +133,7 @@ class Scenario:
 
         if kind == "sync":
             def f(x):
+                scen.keep_delivered(name, x)
                 scen.log.append(("in", name, scen.loop.time(), _freeze(x)))
                 scen.log.append(("out", name, scen.loop.time(), _freeze(x)))
             return f
@@ -345,6 +363,7 @@ class Exec:
                 self._main(scen, loop)
                 self._closing(scen, loop)
                 self._add(scen.check_final())
+                self._add(scen.alias_violations())
             except StopExecution:
                 pass
             except Livelock as e:
